@@ -2407,7 +2407,8 @@ impl LuaGenerator for TokenBasedLuaGenerator<'_> {
         if let Some(token) = string.get_token() {
             self.write_token(token);
         } else {
-            self.write_symbol(&utils::write_string(string.get_value()));
+            // a raw line feed in a value that has no token would add a line to the output
+            self.write_symbol(&utils::write_string_on_one_line(string.get_value()));
         }
     }
 
@@ -2559,7 +2560,7 @@ impl LuaGenerator for TokenBasedLuaGenerator<'_> {
         if let Some(token) = string_type.get_token() {
             self.write_token(token);
         } else {
-            self.write_symbol(&utils::write_string(string_type.get_value()));
+            self.write_symbol(&utils::write_string_on_one_line(string_type.get_value()));
         }
     }
 
